@@ -104,8 +104,14 @@ class StorageTools:
         path = os.path.join(StorageTools.getStorageForProfile(profile_name), name)
         logger.debug("Writing %s" % path)
 
-        with open(path, 'w' if type(val) is str else 'wb') as attrFile:
+        # write a sibling file and rename it over the target: a crash while writing must leave
+        # the previous content (e.g. the account's key pair in config.json) in place
+        tmp_path = path + ".tmp"
+        with open(tmp_path, 'w' if type(val) is str else 'wb') as attrFile:
             attrFile.write(val)
+            attrFile.flush()
+            os.fsync(attrFile.fileno())
+        getattr(os, "replace", os.rename)(tmp_path, path)
 
     @staticmethod
     def readProfileData(profile_name, name, default=None):
